@@ -2,6 +2,7 @@ import HpackVerif.Generated.SrcDec
 import HpackVerif.Proofs.SrcTieTable
 import HpackVerif.Proofs.SrcTieHuff
 import HpackVerif.Impl.Api
+import HpackVerif.Props.Common
 /-! The hand-written model of `Decoder` (`Impl.decodeField`, `decodeLiteral`, `decodeLoop`, `decodeApi`) equals the
 mechanical translation of the `Decoder` class of `src/hpack/hpack.py` (`Generated/SrcDec.lean`).
 
@@ -581,5 +582,551 @@ theorem decode_literal_agree (fuel : Nat) (st : Impl.DecState) (data : Bytes) (s
           simp [h, this]
       rw [hdec]
       exact sLit_agree fuel st b0 tail (b0.toNat &&& 0x0F) 4 _ false (by omega) hf hf2
+
+/-! ### `decode`: the loop and what follows it -/
+
+/-- after a field was decoded: account for its size, refuse the list above the limit, otherwise go on -/
+def sAfter (F : Nat) (self : Src.Decoder) (D Dm : Bytes) (headers : List Py.Header) (len infl i : Int) (header : Py.Header) (consumed : Int) :
+    Py.RS Src.Decoder (Src.Decoder × List Py.Header × Int × Int) :=
+  Except.bind (Py.liftR self (Src.table_entry_size F header.1 header.2.1)) fun t =>
+    if (infl + t > self.f_max_header_list_size) then
+      Except.bind (Py.liftR self (Py.fmtInt self.f_max_header_list_size)) fun _ => .error (.oversizedHeaderListError, self)
+    else Src.Decoder.decode.while1 F self D Dm (headers ++ [header]) len (infl + t) (i + consumed)
+
+/-- one iteration of the translated `while current_index < data_len` loop -/
+theorem while1_succ (F : Nat) (self : Src.Decoder) (D Dm : Bytes) (headers : List Py.Header) (len infl i : Int) :
+    Src.Decoder.decode.while1 (F + 1) self D Dm headers len infl i =
+      if (i < len) then
+        Except.bind (Py.liftR self (Py.getByte D i)) fun cur =>
+          if (decide (Py.band cur 128 ≠ 0) = true) then
+            Except.bind (Py.liftR self (Py.sliceFrom Dm i)) fun d =>
+            Except.bind (Src.Decoder.decode_indexed F self d) fun r => sAfter F r.1 D Dm headers len infl i r.2.1 r.2.2
+          else if (decide (Py.band cur 64 ≠ 0) = true) then
+            Except.bind (Py.liftR self (Py.sliceFrom Dm i)) fun d =>
+            Except.bind (Src.Decoder.decode_literal_index F self d) fun r => sAfter F r.1 D Dm headers len infl i r.2.1 r.2.2
+          else if (decide (Py.band cur 32 ≠ 0) = true) then
+            (if (headers ≠ []) then .error (.hpackDecodingError, self)
+             else
+              Except.bind (Py.liftR self (Py.sliceFrom Dm i)) fun d =>
+              Except.bind (Src.Decoder.update_encoding_context F self d) fun r =>
+                Src.Decoder.decode.while1 F r.1 D Dm headers len infl (i + r.2))
+          else
+            Except.bind (Py.liftR self (Py.sliceFrom Dm i)) fun d =>
+            Except.bind (Src.Decoder.decode_literal_no_index F self d) fun r => sAfter F r.1 D Dm headers len infl i r.2.1 r.2.2
+      else .ok (self, headers, infl, i) := by
+  rw [Src.Decoder.decode.while1]
+  unfold sAfter
+  simp only [bind]
+
+theorem decode_literal_index_eq (F : Nat) (self : Src.Decoder) (d : Bytes) :
+    Src.Decoder.decode_literal_index F self d = Src.Decoder.decode_literal F self d true := by
+  unfold Src.Decoder.decode_literal_index
+  cases Src.Decoder.decode_literal F self d true with
+  | ok r => rfl
+  | error e => rfl
+
+theorem decode_literal_no_index_eq (F : Nat) (self : Src.Decoder) (d : Bytes) :
+    Src.Decoder.decode_literal_no_index F self d = Src.Decoder.decode_literal F self d false := by
+  unfold Src.Decoder.decode_literal_no_index
+  cases Src.Decoder.decode_literal F self d false with
+  | ok r => rfl
+  | error e => rfl
+
+/-- what follows the loop in `decode`: the end-of-block size check, then the conversion of the header list -/
+def sFinish (G : Nat) (raw : Bool) : Src.Decoder × List Py.Header × Int × Int → Py.RS Src.Decoder (Src.Decoder × List Py.Header)
+  | (self, headers, _, _) =>
+    Except.bind (Src.Decoder.assert_valid_table_size G self) fun t13_r =>
+      Py.tryExceptS
+        (Except.bind (Py.liftR t13_r.1 (Py.listMapM (fun h => Except.bind (Src._unicode_if_needed G h raw) fun t14 => .ok t14) headers)) fun t15 =>
+          .ok (t13_r.1, t15))
+        .unicodeDecodeError (fun self => .error (.hpackDecodingError, self))
+
+theorem decode_struct (G : Nat) (self : Src.Decoder) (data : Bytes) (raw : Bool) :
+    Src.Decoder.decode G self data raw =
+      Except.bind (Src.Decoder.decode.while1 G self data data [] (data.length : Int) 0 0) (sFinish G raw) := by
+  unfold Src.Decoder.decode sFinish
+  simp only [bind]
+
+/-- the comprehension `[_unicode_if_needed(h, raw) for h in headers]` -/
+theorem unicode_list (G : Nat) (raw : Bool) (hs : List Impl.Header) :
+    Py.listMapM (fun h => Except.bind (Src._unicode_if_needed G h raw) fun t14 => .ok t14) (hs.map hproj) =
+      if raw then .ok (hs.map hproj)
+      else if hs.all (fun h => Impl.validUtf8 h.name.bytes && Impl.validUtf8 h.value.bytes) then .ok (hs.map hproj)
+      else .error .unicodeDecodeError := by
+  induction hs with
+  | nil => cases raw <;> rfl
+  | cons h t ih =>
+    simp only [List.map_cons, Py.listMapM, ih]
+    cases raw with
+    | true => simp [Src._unicode_if_needed, hproj, Except.bind, bind]
+    | false =>
+      simp only [Src._unicode_if_needed, hproj, Bool.false_eq_true, not_false_eq_true, if_true, if_false, bind, Except.bind, Py.utf8Decode, List.all_cons]
+      by_cases h1 : Impl.validUtf8 h.name.bytes = true
+      · by_cases h2 : Impl.validUtf8 h.value.bytes = true
+        · simp only [h1, h2, if_true, Bool.and_self, Bool.true_and]
+          by_cases ha : (t.all fun h => Impl.validUtf8 h.name.bytes && Impl.validUtf8 h.value.bytes) = true
+          · simp [ha]
+          · simp [ha]
+        · simp [h1, h2]
+      · simp [h1]
+
+/-! growth of the table during a block: at most one entry per field -/
+theorem shrinkLoop_length (m : Nat) : ∀ (rev : List Impl.Entry) (cur : Int) (rev' : List Impl.Entry) (cur' : Int),
+    Impl.shrinkLoop m rev cur = .ok (rev', cur') → rev'.length ≤ rev.length := by
+  intro rev
+  induction rev with
+  | nil =>
+    intro cur rev' cur' h
+    unfold Impl.shrinkLoop at h
+    split at h
+    · cases h
+    · cases h; simp
+  | cons e r ih =>
+    intro cur rev' cur' h
+    unfold Impl.shrinkLoop at h
+    split at h
+    · have := ih _ _ _ h; simp; omega
+    · cases h; simp
+
+theorem shrink_length (t t' : Impl.Table) (h : t.shrink = .ok t') : t'.entries.length ≤ t.entries.length := by
+  unfold Impl.Table.shrink at h
+  split at h
+  · rename_i rev cur hs
+    cases h
+    have := shrinkLoop_length _ _ _ _ _ hs
+    simpa using this
+  · cases h
+  · cases h
+
+theorem add_length (t t' : Impl.Table) (n v : Impl.PyBuf) (h : t.add n v = .ok t') : t'.entries.length ≤ t.entries.length + 1 := by
+  unfold Impl.Table.add at h
+  simp only at h
+  split at h
+  · cases h; simp
+  · have := shrink_length _ _ h; simpa using this
+
+theorem setMaxsize_length (t t' : Impl.Table) (m : Nat) (h : t.setMaxsize m = .ok t') : t'.entries.length ≤ t.entries.length := by
+  unfold Impl.Table.setMaxsize at h
+  simp only at h
+  split at h
+  · cases h; simp
+  · split at h
+    · have := shrink_length _ _ h; simpa using this
+    · cases h; simp
+
+theorem mTail_length (st : Impl.DecState) (name value : Impl.PyBuf) (total : Nat) (ni si : Bool) (r : Impl.Header × Nat × Impl.Table)
+    (h : mTail st name value total ni si = .ok r) : r.2.2.entries.length ≤ st.table.entries.length + 1 := by
+  unfold mTail at h
+  cases si with
+  | false => simp at h; cases h; simp
+  | true =>
+    simp only [if_true] at h
+    cases ha : st.table.add name value with
+    | ok t' => rw [ha] at h; cases h; exact add_length _ _ _ _ ha
+    | err e => rw [ha] at h; cases h
+    | esc x => rw [ha] at h; cases h
+
+theorem mValue_length (st : Impl.DecState) (name : Impl.PyBuf) (total0 : Nat) (data : Bytes) (ni si : Bool) (r : Impl.Header × Nat × Impl.Table)
+    (h : mValue st name total0 data ni si = .ok r) : r.2.2.entries.length ≤ st.table.entries.length + 1 := by
+  unfold mValue at h
+  cases hr : Impl.readString Gen.intCap true data with
+  | ok p => rw [hr] at h; exact mTail_length _ _ _ _ _ _ _ h
+  | err e => rw [hr] at h; cases h
+  | esc x => rw [hr] at h; cases h
+
+theorem mLit_length (st : Impl.DecState) (data tail : Bytes) (iname nlen : Nat) (ni si : Bool) (r : Impl.Header × Nat × Impl.Table)
+    (h : mLit st data tail iname nlen ni si = .ok r) : r.2.2.entries.length ≤ st.table.entries.length + 1 := by
+  unfold mLit at h
+  split at h
+  · cases hd : Impl.decodeInt Gen.intCap data nlen with
+    | ok p =>
+      rw [hd] at h
+      simp only at h
+      cases hg : st.table.getByIndex p.1 with
+      | ok e => rw [hg] at h; exact mValue_length _ _ _ _ _ _ _ h
+      | err e => rw [hg] at h; cases h
+      | esc x => rw [hg] at h; cases h
+    | err e => rw [hd] at h; cases h
+    | esc x => rw [hd] at h; cases h
+  · cases hr : Impl.readString Gen.intCap true tail with
+    | ok p => rw [hr] at h; exact mValue_length _ _ _ _ _ _ _ h
+    | err e => rw [hr] at h; cases h
+    | esc x => rw [hr] at h; cases h
+
+theorem decodeLiteral_length (st : Impl.DecState) (data : Bytes) (si : Bool) (r : Impl.Header × Nat × Impl.Table)
+    (h : Impl.decodeLiteral Gen.intCap true st.table data si = .ok r) : r.2.2.entries.length ≤ st.table.entries.length + 1 := by
+  cases data with
+  | nil => simp [Impl.decodeLiteral] at h
+  | cons b0 tail =>
+    rw [decodeLiteral_eq] at h
+    cases si with
+    | true => simp only [if_true] at h; exact mLit_length _ _ _ _ _ _ _ _ h
+    | false => simp only [Bool.false_eq_true, if_false] at h; exact mLit_length _ _ _ _ _ _ _ _ h
+
+/-- the three branches are what `Impl.decodeField` dispatches to -/
+theorem decodeField_is_dispatch (st : Impl.DecState) (b0 : UInt8) (rest : Bytes) (seen : Bool) :
+    Impl.decodeField Gen.intCap true st (b0 :: rest) seen =
+      if b0.toNat &&& 0x80 ≠ 0 then
+        (match mIndexed st (b0 :: rest) with
+         | .ok (h, c) => .ok (some h, c, st) | .err e => .err e | .esc x => .esc x)
+      else if b0.toNat &&& 0x40 ≠ 0 ∨ b0.toNat &&& 0x20 = 0 then
+        (match Impl.decodeLiteral Gen.intCap true st.table (b0 :: rest) (decide (b0.toNat &&& 0x40 ≠ 0)) with
+         | .ok (h, c, t') => .ok (some h, c, { st with table := t' }) | .err e => .err e | .esc x => .esc x)
+      else if seen then .err .decoding
+      else
+        (match mSizeUpdate st (b0 :: rest) with
+         | .ok (c, st') => .ok (none, c, st') | .err e => .err e | .esc x => .esc x) := by
+  unfold Impl.decodeField mIndexed mSizeUpdate
+  simp only []
+  split
+  · cases Impl.decodeInt Gen.intCap (b0 :: rest) 7 with
+    | err e => rfl
+    | esc x => rfl
+    | ok r =>
+      obtain ⟨i, c⟩ := r
+      simp only [obind_ok]
+      cases st.table.getByIndex i <;> rfl
+  · split
+    · cases Impl.decodeLiteral Gen.intCap true st.table (b0 :: rest) (decide (b0.toNat &&& 0x40 ≠ 0)) with
+      | err e => rfl
+      | esc x => rfl
+      | ok r => obtain ⟨h, c, t'⟩ := r; rfl
+    · split
+      · rfl
+      · cases Impl.decodeInt Gen.intCap (b0 :: rest) 5 with
+        | err e => rfl
+        | esc x => rfl
+        | ok r =>
+          obtain ⟨n, c⟩ := r
+          simp only [obind_ok]
+          split
+          · rfl
+          · cases st.table.setMaxsize n <;> rfl
+
+
+/-! ### the whole call -/
+
+/-- the model's run from a loop state: `decodeLoop`, then the conversion of the result -/
+def mRun (n : Nat) (st : Impl.DecState) (suffix : Bytes) (hsM : List Impl.Header) (infl : Nat) (raw : Bool) :
+    Impl.Out (List Impl.Header) × Impl.DecState :=
+  match Impl.decodeLoop Gen.intCap true n st suffix hsM infl with
+  | (.ok hs, st') => (Impl.finishHeaders raw hs, st')
+  | (.err e, st') => (.err e, st')
+  | (.esc x, st') => (.esc x, st')
+
+/-- agreement for a whole call: the list and the decoder afterwards; a documented error and the decoder afterwards; an escape -/
+def AgreeRun (r : Py.RS Src.Decoder (Src.Decoder × List Py.Header)) (o : Impl.Out (List Impl.Header) × Impl.DecState) : Prop :=
+  match o with
+  | (.ok hs, st') => r = .ok (absD st', hs.map hproj)
+  | (.err e, st') => r = .error (excOfErr e, absD st')
+  | (.esc x, _) => dropS r = .error (excOfEsc x)
+
+theorem hproj_finish (hs : List Impl.Header) :
+    (hs.map fun h => ({ name := ⟨h.name.bytes, false⟩, value := ⟨h.value.bytes, false⟩, never := h.never } : Impl.Header)).map hproj = hs.map hproj := by
+  induction hs with
+  | nil => rfl
+  | cons h t ih => simp [hproj, ih]
+
+theorem sFinish_agree (G : Nat) (raw : Bool) (st : Impl.DecState) (hsM : List Impl.Header) (infl i : Int) :
+    AgreeRun (sFinish G raw (absD st, hsM.reverse.map hproj, infl, i))
+      (if st.table.maxsize > st.allowed then (.err .invalidTableSize, st) else (Impl.finishHeaders raw hsM.reverse, st)) := by
+  unfold sFinish
+  simp only [assert_valid_table_size_eq]
+  by_cases h : st.table.maxsize > st.allowed
+  · simp only [h, if_true, ebind_err, AgreeRun, excOfErr]
+  · simp only [h, if_false, ebind_ok, unicode_list]
+    unfold Impl.finishHeaders
+    cases raw with
+    | true =>
+      simp [AgreeRun, Py.tryExceptS, Except.bind]
+      intro a _; rfl
+    | false =>
+      simp only [Bool.false_eq_true, if_false]
+      by_cases ha : (hsM.reverse.all fun h => Impl.validUtf8 h.name.bytes && Impl.validUtf8 h.value.bytes) = true
+      · simp [ha, AgreeRun, Py.tryExceptS, Except.bind]
+        intro a _; rfl
+      · simp [ha, AgreeRun, Py.tryExceptS, Except.bind, excOfErr]
+
+theorem ebind_ite {ε α β} (c : Prop) [Decidable c] (a b : Except ε α) (k : α → Except ε β) :
+    Except.bind (if c then a else b) k = if c then Except.bind a k else Except.bind b k := by
+  split <;> rfl
+theorem ebind_assoc {ε α β γ} (x : Except ε α) (f : α → Except ε β) (k : β → Except ε γ) :
+    Except.bind (Except.bind x f) k = Except.bind x fun a => Except.bind (f a) k := by
+  cases x <;> rfl
+
+theorem fmtInt_small (n : Nat) (h : n < 10 ^ 4300) : Py.fmtInt (n : Int) = .ok () := by
+  unfold Py.fmtInt
+  have : ¬ ((n : Int).natAbs ≥ 10 ^ Py.maxStrDigits) := by
+    simp only [Int.natAbs_natCast, Py.maxStrDigits]; omega
+  rw [if_neg this]
+
+theorem decodeLoop_succ_nil (n : Nat) (st : Impl.DecState) (hsM : List Impl.Header) (infl : Nat) :
+    Impl.decodeLoop Gen.intCap true (n + 1) st [] hsM infl =
+      if st.table.maxsize > st.allowed then (.err .invalidTableSize, st) else (.ok hsM.reverse, st) := by
+  rw [Impl.decodeLoop]
+
+theorem decodeLoop_succ_cons (n : Nat) (st : Impl.DecState) (b0 : UInt8) (rest : Bytes) (hsM : List Impl.Header) (infl : Nat) :
+    Impl.decodeLoop Gen.intCap true (n + 1) st (b0 :: rest) hsM infl =
+      match Impl.decodeField Gen.intCap true st (b0 :: rest) (!hsM.isEmpty) with
+      | .ok (some h, consumed, st') =>
+        if infl + Impl.entrySize (h.name, h.value) > st'.listLimit then (.err .oversized, st')
+        else Impl.decodeLoop Gen.intCap true n st' ((b0 :: rest).drop consumed) (h :: hsM) (infl + Impl.entrySize (h.name, h.value))
+      | .ok (none, consumed, st') => Impl.decodeLoop Gen.intCap true n st' ((b0 :: rest).drop consumed) hsM infl
+      | .err e => (.err e, st)
+      | .esc x => (.esc x, st) := by
+  rw [Impl.decodeLoop]
+  rfl
+
+theorem mRun_nil (n : Nat) (st : Impl.DecState) (hsM : List Impl.Header) (infl : Nat) (raw : Bool) :
+    mRun (n + 1) st [] hsM infl raw =
+      if st.table.maxsize > st.allowed then (.err .invalidTableSize, st) else (Impl.finishHeaders raw hsM.reverse, st) := by
+  unfold mRun
+  rw [decodeLoop_succ_nil]
+  by_cases h : st.table.maxsize > st.allowed
+  · simp [h]
+  · simp [h]
+
+/-- the step shared by the three field-producing branches -/
+theorem after_field (D : Bytes) (raw : Bool) (G n F : Nat) (st' : Impl.DecState) (hsM : List Impl.Header) (infl i c : Nat) (h : Impl.Header)
+    (hlim : st'.listLimit < 10 ^ 4300)
+    (ih : AgreeRun (Except.bind (Src.Decoder.decode.while1 F (absD st') D D ((h :: hsM).reverse.map hproj) (D.length : Int)
+            ((infl + Impl.entrySize (h.name, h.value) : Nat) : Int) ((i + c : Nat) : Int)) (sFinish G raw))
+          (mRun n st' (D.drop (i + c)) (h :: hsM) (infl + Impl.entrySize (h.name, h.value)) raw)) :
+    AgreeRun (Except.bind (sAfter F (absD st') D D (hsM.reverse.map hproj) (D.length : Int) (infl : Int) (i : Int) (hproj h) (c : Int)) (sFinish G raw))
+      (if infl + Impl.entrySize (h.name, h.value) > st'.listLimit then (.err .oversized, st')
+       else mRun n st' (D.drop (i + c)) (h :: hsM) (infl + Impl.entrySize (h.name, h.value)) raw) := by
+  unfold sAfter
+  have hsz : Src.table_entry_size F (hproj h).1 (hproj h).2.1 = .ok ((Impl.entrySize (h.name, h.value) : Nat) : Int) := by
+    rw [table_entry_size_tie]; rfl
+  rw [hsz, liftR_ok, ebind_ok]
+  have hadd : (infl : Int) + ((Impl.entrySize (h.name, h.value) : Nat) : Int) = ((infl + Impl.entrySize (h.name, h.value) : Nat) : Int) := by omega
+  rw [hadd]
+  by_cases hov : infl + Impl.entrySize (h.name, h.value) > st'.listLimit
+  · have hov' : ((infl + Impl.entrySize (h.name, h.value) : Nat) : Int) > (absD st').f_max_header_list_size := by
+      simp only [absD]; omega
+    simp only [hov, hov', if_true]
+    have hf : Py.fmtInt (absD st').f_max_header_list_size = .ok () := fmtInt_small st'.listLimit hlim
+    rw [hf, liftR_ok, ebind_ok, ebind_err]
+    simp only [AgreeRun, excOfErr]
+  · have hov' : ¬ (((infl + Impl.entrySize (h.name, h.value) : Nat) : Int) > (absD st').f_max_header_list_size) := by
+      simp only [absD]; omega
+    simp only [hov, hov', if_false]
+    have hi : (i : Int) + (c : Int) = ((i + c : Nat) : Int) := by omega
+    have hl : hsM.reverse.map hproj ++ [hproj h] = (h :: hsM).reverse.map hproj := by simp
+    rw [hi, hl]
+    exact ih
+
+theorem mRun_cons (n : Nat) (st : Impl.DecState) (b0 : UInt8) (rest : Bytes) (hsM : List Impl.Header) (infl : Nat) (raw : Bool) :
+    mRun (n + 1) st (b0 :: rest) hsM infl raw =
+      match Impl.decodeField Gen.intCap true st (b0 :: rest) (!hsM.isEmpty) with
+      | .ok (some h, consumed, st') =>
+        if infl + Impl.entrySize (h.name, h.value) > st'.listLimit then (.err .oversized, st')
+        else mRun n st' ((b0 :: rest).drop consumed) (h :: hsM) (infl + Impl.entrySize (h.name, h.value)) raw
+      | .ok (none, consumed, st') => mRun n st' ((b0 :: rest).drop consumed) hsM infl raw
+      | .err e => (.err e, st)
+      | .esc x => (.esc x, st) := by
+  unfold mRun
+  rw [decodeLoop_succ_cons]
+  cases hf : Impl.decodeField Gen.intCap true st (b0 :: rest) (!hsM.isEmpty) with
+  | err e => rfl
+  | esc x => rfl
+  | ok r =>
+    obtain ⟨ho, c, st'⟩ := r
+    cases ho with
+    | none => rfl
+    | some h =>
+      simp only []
+      by_cases hov : infl + Impl.entrySize (h.name, h.value) > st'.listLimit
+      · simp [hov]
+      · simp [hov]
+
+theorem field_safe (st : Impl.DecState) (hinv : Impl.Inv st.table) (b0 : UInt8) (rest : Bytes) (seen : Bool) :
+    ∀ h k st', Impl.decodeField Gen.intCap true st (b0 :: rest) seen = .ok (h, k, st') →
+      1 ≤ k ∧ k ≤ (b0 :: rest).length ∧ Impl.Inv st'.table ∧ st'.allowed = st.allowed ∧ st'.listLimit = st.listLimit := by
+  rw [Props.cap_eq]
+  exact (Impl.decodeField_safe Props.capN Props.capOK st hinv (b0 :: rest) (by simp) seen).2
+
+theorem band_flag (b : Nat) (m : Nat) : (decide (Py.band (b : Int) (m : Int) ≠ 0) = true) ↔ (b &&& m ≠ 0) := by
+  have : Py.band (b : Int) (m : Int) = ((b &&& m : Nat) : Int) := band_ofNat b m
+  rw [this]
+  simp only [decide_eq_true_eq]
+  omega
+
+/-- **The loop and what follows it**: from every loop state, the translated `while` loop followed by the end-of-block check
+and the conversion of the list agrees with `Impl.decodeLoop` followed by `finishHeaders` -/
+theorem run_agree (D : Bytes) (raw : Bool) (G : Nat) :
+    ∀ (n : Nat) (st : Impl.DecState) (i : Nat) (hsM : List Impl.Header) (infl F : Nat),
+      Impl.Inv st.table → st.listLimit < 10 ^ 4300 → i ≤ D.length → n > (D.drop i).length →
+      F ≥ 2 * n + D.length + st.table.entries.length + 2 →
+      AgreeRun (Except.bind (Src.Decoder.decode.while1 F (absD st) D D (hsM.reverse.map hproj) (D.length : Int) (infl : Int) (i : Int)) (sFinish G raw))
+        (mRun n st (D.drop i) hsM infl raw) := by
+  intro n
+  induction n with
+  | zero => intro st i hsM infl F _ _ _ hn _; omega
+  | succ n ih =>
+    intro st i hsM infl F hinv hlim hi hn hF
+    obtain ⟨F', rfl⟩ : ∃ F', F = F' + 1 := ⟨F - 1, by omega⟩
+    rw [while1_succ]
+    cases hd : D.drop i with
+    | nil =>
+      have hlen : D.length ≤ i := by
+        have := congrArg List.length hd
+        simp only [List.length_drop, List.length_nil] at this
+        omega
+      have hi' : ¬ ((i : Int) < (D.length : Int)) := by omega
+      simp only [hi', if_false, ebind_ok]
+      rw [mRun_nil]
+      exact sFinish_agree G raw st hsM infl i
+    | cons b0 rest =>
+      have hlen : (D.drop i).length = D.length - i := List.length_drop
+      have hlt : i < D.length := by
+        rw [hd] at hlen; simp at hlen; omega
+      have hi' : (i : Int) < (D.length : Int) := by omega
+      have hdl : (b0 :: rest).length = D.length - i := by rw [← hd]; exact hlen
+      simp only [hi', if_true, getByte_drop D i b0 rest hd, liftR_ok, ebind_ok, sliceFrom_ofNat, hd]
+      rw [mRun_cons, decodeField_is_dispatch]
+      have hsafe := field_safe st hinv b0 rest (!hsM.isEmpty)
+      rw [decodeField_is_dispatch] at hsafe
+      have hdrop : ∀ c, List.drop c (b0 :: rest) = D.drop (i + c) := by
+        intro c; rw [← hd, List.drop_drop]
+      have h128 := band_flag b0.toNat 128
+      have h64 := band_flag b0.toNat 64
+      have h32 := band_flag b0.toNat 32
+      by_cases hx : b0.toNat &&& 0x80 ≠ 0
+      · -- indexed field
+        have hx' : decide (Py.band (b0.toNat : Int) 128 ≠ 0) = true := h128.mpr hx
+        simp only [hx, hx', if_true, ne_eq, not_false_eq_true] at hsafe ⊢
+        have hag := decode_indexed_agree F' st (b0 :: rest) (by omega)
+        cases hm : mIndexed st (b0 :: rest) with
+        | err e => rw [hm] at hag; simp only [Agree] at hag; simp only [hag, ebind_err, AgreeRun]
+        | esc x =>
+          rw [hm] at hag; simp only [Agree] at hag
+          cases hr : Src.Decoder.decode_indexed F' (absD st) (b0 :: rest) with
+          | ok a => rw [hr] at hag; simp [dropS] at hag
+          | error es => obtain ⟨e, s⟩ := es; rw [hr] at hag; simp only [dropS, Except.error.injEq] at hag; simp [AgreeRun, ebind_err, dropS, hag]
+        | ok r =>
+          obtain ⟨h, c⟩ := r
+          rw [hm] at hag hsafe; simp only [Agree] at hag
+          obtain ⟨hc1, hc2, hinv', _, hl'⟩ := hsafe (some h) c st rfl
+          simp only [hag, ebind_ok]
+          rw [hdrop c]
+          apply after_field D raw G n F' st hsM infl i c h hlim
+          exact ih st (i + c) (h :: hsM) _ F' hinv hlim (by omega) (by simp only [List.length_drop]; omega) (by omega)
+      · have hx' : ¬ (decide (Py.band (b0.toNat : Int) 128 ≠ 0) = true) := fun hh => hx (h128.mp hh)
+        simp only [hx, hx', if_false, Bool.false_eq_true] at hsafe ⊢
+        by_cases hy : b0.toNat &&& 0x40 ≠ 0
+        · -- literal with incremental indexing
+          have hy' : decide (Py.band (b0.toNat : Int) 64 ≠ 0) = true := h64.mpr hy
+          have hor : b0.toNat &&& 0x40 ≠ 0 ∨ b0.toNat &&& 0x20 = 0 := Or.inl hy
+          have hsi : decide (b0.toNat &&& 0x40 ≠ 0) = true := by simp [hy]
+          simp only [hy', hor, if_true, hsi, decode_literal_index_eq] at hsafe ⊢
+          have hag := decode_literal_agree F' st (b0 :: rest) true (by omega) (by omega)
+          cases hm : Impl.decodeLiteral Gen.intCap true st.table (b0 :: rest) true with
+          | err e => rw [hm] at hag; simp only [Agree] at hag; simp only [hag, ebind_err, AgreeRun]
+          | esc x =>
+            rw [hm] at hag; simp only [Agree] at hag
+            cases hr : Src.Decoder.decode_literal F' (absD st) (b0 :: rest) true with
+            | ok a => rw [hr] at hag; simp [dropS] at hag
+            | error es => obtain ⟨e, s⟩ := es; rw [hr] at hag; simp only [dropS, Except.error.injEq] at hag; simp [AgreeRun, ebind_err, dropS, hag]
+          | ok r =>
+            obtain ⟨h, c, t'⟩ := r
+            have hgrow := decodeLiteral_length st (b0 :: rest) true _ hm
+            rw [hm] at hag hsafe; simp only [Agree, litOk] at hag
+            obtain ⟨hc1, hc2, hinv', _, hl'⟩ := hsafe (some h) c { st with table := t' } rfl
+            simp only [hag, ebind_ok]
+            rw [hdrop c]
+            apply after_field D raw G n F' { st with table := t' } hsM infl i c h hlim
+            exact ih { st with table := t' } (i + c) (h :: hsM) _ F' hinv' hlim (by omega) (by simp only [List.length_drop]; omega)
+              (by simp only at hgrow ⊢; omega)
+        · have hy' : ¬ (decide (Py.band (b0.toNat : Int) 64 ≠ 0) = true) := fun hh => hy (h64.mp hh)
+          simp only [hy', hy, if_false, Bool.false_eq_true] at hsafe ⊢
+          by_cases hz : b0.toNat &&& 0x20 ≠ 0
+          · -- dynamic table size update
+            have hz' : decide (Py.band (b0.toNat : Int) 32 ≠ 0) = true := h32.mpr hz
+            have hz2 : ¬ (b0.toNat &&& 32 = 0) := hz
+            simp only [hz', hz2, or_self, if_true, if_false] at hsafe ⊢
+            by_cases hseen : hsM.isEmpty = true
+            · have hnil : hsM = [] := List.isEmpty_iff.mp hseen
+              subst hnil
+              simp only [List.reverse_nil, List.map_nil, ne_eq, not_true_eq_false, if_false, List.isEmpty_nil, Bool.not_true, Bool.false_eq_true] at hsafe ⊢
+              have hag := update_encoding_context_agree F' st (b0 :: rest) (by omega) (by omega)
+              cases hm : mSizeUpdate st (b0 :: rest) with
+              | err e => rw [hm] at hag; simp only [Agree] at hag; simp only [hag, ebind_err, AgreeRun]
+              | esc x =>
+                rw [hm] at hag; simp only [Agree] at hag
+                cases hr : Src.Decoder.update_encoding_context F' (absD st) (b0 :: rest) with
+                | ok a => rw [hr] at hag; simp [dropS] at hag
+                | error es => obtain ⟨e, s⟩ := es; rw [hr] at hag; simp only [dropS, Except.error.injEq] at hag; simp [AgreeRun, ebind_err, dropS, hag]
+              | ok r =>
+                obtain ⟨c, st'⟩ := r
+                rw [hm] at hag hsafe; simp only [Agree] at hag
+                obtain ⟨hc1, hc2, hinv', _, hl'⟩ := hsafe none c st' rfl
+                have hgrow : st'.table.entries.length ≤ st.table.entries.length := by
+                  unfold mSizeUpdate at hm
+                  cases hdi : Impl.decodeInt Gen.intCap (b0 :: rest) 5 with
+                  | err e => rw [hdi] at hm; cases hm
+                  | esc x => rw [hdi] at hm; cases hm
+                  | ok p =>
+                    rw [hdi] at hm
+                    simp only at hm
+                    split at hm
+                    · cases hm
+                    · cases hsm : st.table.setMaxsize p.1 with
+                      | ok t' => rw [hsm] at hm; cases hm; exact setMaxsize_length _ _ _ hsm
+                      | err e => rw [hsm] at hm; cases hm
+                      | esc x => rw [hsm] at hm; cases hm
+                simp only [hag, ebind_ok]
+                rw [hdrop c]
+                have hi2 : (i : Int) + (c : Int) = ((i + c : Nat) : Int) := by omega
+                rw [hi2]
+                have := ih st' (i + c) [] infl F' hinv' (by omega) (by omega) (by simp only [List.length_drop]; omega) (by omega)
+                simpa using this
+            · have hne : hsM.reverse.map hproj ≠ [] := by
+                intro hh
+                have : hsM = [] := by simpa using hh
+                exact hseen (by simp [this])
+              have hs2 : (!hsM.isEmpty) = true := by simpa using hseen
+              simp only [hne, ne_eq, not_false_eq_true, if_true, hs2, ebind_err, AgreeRun, excOfErr]
+          · -- literal without indexing / never indexed
+            have hz' : ¬ (decide (Py.band (b0.toNat : Int) 32 ≠ 0) = true) := fun hh => hz (h32.mp hh)
+            have hz0 : b0.toNat &&& 0x20 = 0 := by omega
+            have hz3 : b0.toNat &&& 32 = 0 := hz0
+            have hdF : (decide False) = false := rfl
+            simp only [hz', hz3, or_true, if_true, if_false, hdF, Bool.false_eq_true, decode_literal_no_index_eq] at hsafe ⊢
+            have hag := decode_literal_agree F' st (b0 :: rest) false (by omega) (by omega)
+            cases hm : Impl.decodeLiteral Gen.intCap true st.table (b0 :: rest) false with
+            | err e => rw [hm] at hag; simp only [Agree] at hag; simp only [hag, ebind_err, AgreeRun]
+            | esc x =>
+              rw [hm] at hag; simp only [Agree] at hag
+              cases hr : Src.Decoder.decode_literal F' (absD st) (b0 :: rest) false with
+              | ok a => rw [hr] at hag; simp [dropS] at hag
+              | error es => obtain ⟨e, s⟩ := es; rw [hr] at hag; simp only [dropS, Except.error.injEq] at hag; simp [AgreeRun, ebind_err, dropS, hag]
+            | ok r =>
+              obtain ⟨h, c, t'⟩ := r
+              have hgrow := decodeLiteral_length st (b0 :: rest) false _ hm
+              rw [hm] at hag hsafe; simp only [Agree, litOk] at hag
+              obtain ⟨hc1, hc2, hinv', _, hl'⟩ := hsafe (some h) c { st with table := t' } rfl
+              simp only [hag, ebind_ok]
+              rw [hdrop c]
+              apply after_field D raw G n F' { st with table := t' } hsM infl i c h hlim
+              exact ih { st with table := t' } (i + c) (h :: hsM) _ F' hinv' hlim (by omega) (by simp only [List.length_drop]; omega)
+                (by simp only at hgrow ⊢; omega)
+
+theorem mRun_is_decodeApi (st : Impl.DecState) (data : Bytes) (raw : Bool) :
+    mRun (data.length + 1) st data [] 0 raw = Impl.decodeApi Gen.intCap true st data raw := by
+  unfold mRun Impl.decodeApi Impl.decode
+  cases Impl.decodeLoop Gen.intCap true (data.length + 1) st data [] 0 with
+  | mk r st' => cases r <;> rfl
+
+/-- **`Decoder.decode(data, raw)`**: the translated method agrees with `Impl.decodeApi` on the current tree — the returned
+list (fields, order, never-indexed class; text through UTF-8), the decoder afterwards (table, sizes), every documented
+error with its class *and the decoder it leaves behind*, for every state satisfying the table invariant (every reachable
+state does), every octet string, both modes; the loop terminates. -/
+theorem decode_agree (st : Impl.DecState) (data : Bytes) (raw : Bool) (hinv : Impl.Inv st.table) (hlim : st.listLimit < 10 ^ 4300)
+    (G : Nat) (hG : G ≥ 3 * data.length + st.table.entries.length + 4) :
+    AgreeRun (Src.Decoder.decode G (absD st) data raw) (Impl.decodeApi Gen.intCap true st data raw) := by
+  rw [decode_struct, ← mRun_is_decodeApi]
+  have := run_agree data raw G (data.length + 1) st 0 [] 0 G hinv hlim (by omega) (by simp) (by omega)
+  simpa using this
 
 end SrcTie
